@@ -1089,8 +1089,8 @@ theorem lookupIn_newMap (ae : Bool) (σ : Text → Val) (keys : List Text) (ctx 
 theorem renderNode_makeNode (ns ae : Bool) (σ : Text → Val) (S : Text) (P : Option Text) (ctx : Option Text)
     (keys : List Text) (pk : Option Text) (vr ncn : Bool) :
     renderNode ae identityTr σ (makeNode ns S P ctx keys pk vr ncn) =
-      (let S' := if (!vr && !ns) = true then undouble S else S
-       let P' := if (!vr && !ns) = true then P.map undouble else P
+      (let S' := if (keys.isEmpty && !ns) = true then undouble S else S
+       let P' := if (keys.isEmpty && !ns) = true then P.map undouble else P
        let X := match pk with | none => S' | some k => if (σ k).isOne then S' else P'.getD []
        if ns = true then pyPercentFormat (lookupIn (newMap ae σ keys ctx pk ncn)) X
        else if keys.isEmpty = true then .ok X
@@ -1225,11 +1225,10 @@ theorem refsS_TS_nil {trimmed : Bool} {ss : List Sym} (h : refsS ss = []) : refs
 theorem render_form (ns ae : Bool) (σ : Text → Val) (B : Body) (refsAll vars : List Text) (trimmed : Bool)
     (ctx pk : Option Text) (ncn : Bool)
     (hB : ∀ n ∈ (parseBlock B).1, n ∈ refsAll) (hnames : ∀ n ∈ refsAll, NameOk n)
-    (hncn : ncn = true → pk = some kwNum)
-    (hpct : ns = false → refsAll = [] → vars ≠ [] → '%' ∉ textOf B) :
+    (hncn : ncn = true → pk = some kwNum) :
     (let M := if trimmed = true then trimWhitespace (parseBlock B).2 else (parseBlock B).2
      let keys := keysOf vars refsAll
-     let X := if (!(!refsAll.isEmpty) && !ns) = true then undouble M else M
+     let X := if (keys.isEmpty && !ns) = true then undouble M else M
      if ns = true then pyPercentFormat (lookupIn (newMap ae σ keys ctx pk ncn)) X
      else if keys.isEmpty = true then .ok X
      else pyPercentFormat (lookupIn (keys.map fun k => (k, (σ k).show ae))) X)
@@ -1247,46 +1246,20 @@ theorem render_form (ns ae : Bool) (σ : Text → Val) (B : Body) (refsAll vars 
     simp only [Bool.not_true, Bool.and_false, Bool.false_eq_true, if_false, if_true]
     exact pyPercentFormat_msgS _ _ _ hrn (fun n hn => lookupIn_newMap ae σ _ ctx pk ncn hncn n (hrk n hn))
   | false =>
-    simp only [Bool.false_eq_true, if_false, Bool.not_false, Bool.and_true, Bool.not_not]
-    by_cases hall : refsAll = []
-    · -- no variable referenced anywhere: statically un-doubled
-      subst hall
-      have hB0 : (parseBlock B).1 = [] := by
-        cases h : (parseBlock B).1 with
+    simp only [Bool.false_eq_true, if_false, Bool.not_false, Bool.and_true]
+    cases hk : (keysOf vars refsAll).isEmpty with
+    | true =>
+      -- no variables at all: nothing is formatted, the message is un-doubled statically
+      have hknil : keysOf vars refsAll = [] := by simpa using hk
+      have hr0 : refsS (TS trimmed (syms B)) = [] := by
+        cases hr : refsS (TS trimmed (syms B)) with
         | nil => rfl
-        | cons n r => have := hB n (by rw [h]; simp); simp at this
-      have hr0 : refsS (TS trimmed (syms B)) = [] := refsS_TS_nil (by rw [refsS_syms]; exact hB0)
-      simp only [List.isEmpty_nil, if_true, keysOf_nil]
+        | cons n r => have := hrk n (by rw [hr]; simp); rw [hknil] at this; simp at this
+      simp only [if_true]
       rw [undouble_msgS_no_refs (fun n => (σ n).show ae) _ hr0]
-      cases hv : vars.isEmpty with
-      | true => simp
-      | false =>
-        simp only [Bool.false_eq_true, if_false]
-        apply pyPercentFormat_no_pct
-        have hvne : vars ≠ [] := by intro e; rw [e] at hv; simp at hv
-        have hp := hpct rfl rfl hvne
-        rw [mem_fill_no_refs _ _ hr0]
-        intro hmem
-        apply hp
-        unfold textOf
-        rw [← fill_syms, mem_fill_no_refs _ _ (by rw [refsS_syms]; exact hB0)]
-        unfold TS at hmem
-        split at hmem
-        · rcases mem_trimG Sym.ws Sym.nl (Sym.ch ' ') hmem with h | h
-          · exact h
-          · simp at h
-        · exact hmem
-    · -- some variable is referenced: the dict is not empty and the message stays doubled
-      have hne : refsAll.isEmpty = false := by cases refsAll <;> simp_all
-      obtain ⟨n0, hn0⟩ : ∃ n, n ∈ refsAll := by
-        cases refsAll with
-        | nil => exact absurd rfl hall
-        | cons a r => exact ⟨a, by simp⟩
-      have hkne : (keysOf vars refsAll).isEmpty = false := by
-        cases hk : keysOf vars refsAll with
-        | nil => have := mem_keysOf (vars := vars) hn0; rw [hk] at this; simp at this
-        | cons a r => rfl
-      simp only [hne, hkne, Bool.false_eq_true, if_false]
+    | false =>
+      -- there are variables: the message stays doubled and is formatted with the dict
+      simp only [Bool.false_eq_true, if_false]
       exact pyPercentFormat_msgS _ _ _ hrn (fun n hn => lookupIn_map_mem _ (fun k => (σ k).show ae) n (hrk n hn))
 
 /-! ### oracle and extraction helpers -/
